@@ -363,8 +363,15 @@ pub fn run(env: &Env, run: &Run) -> (Stats, Coverage) {
     }
     // (c) pumped runs over the class representatives: a^k b, b a^k, a^k b a for k up to 1025
     {
+        // ... the shorter ones and the class representatives inside ASCII labels at every address
+        // residue (sub-slices of a larger buffer)
         let mut fam = pumped(&alpha, &PUMP_LENGTHS);
-        fam.extend(pumped(&alpha, &PUMP_LENGTHS_LONG));
+        fam.extend(sparse_blocks(&alpha, run.tier));
+        st.merge(run_family_placed(&fam, &placements(run.tier), |s, st| {
+            let v = check_label(env, Prof::Ucm, s, st);
+            count(v, st);
+        }));
+        let fam = pumped(&alpha, &PUMP_LENGTHS_LONG);
         st.merge(run_family(&fam, |s, st| {
             let v = check_label(env, Prof::Ucm, s, st);
             count(v, st);
